@@ -11,8 +11,8 @@
    char boundary or beyond the length, `usize` subtraction below zero (debug profile), `lines[i]`.
    Loops run on fuel; running out of fuel is the distinct result [RFuel].
 
-   The display width of a string is the sum of the widths of its characters; the width of a
-   character (unicode-width's `width_cjk`) is the Section variable [width].
+   The display width of a string (unicode-width's `UnicodeWidthStr::width_cjk`) is the Section variable
+   [swidth], an arbitrary function of the string.
 
    Two flags select the *repaired* code (proposed_fixes/C14-F4a.diff, C14-F4c.diff):
      fixA = true : display_span returns Ok(()) at once for an empty input
@@ -243,10 +243,9 @@ Fixpoint find_end (ls : list (list byte)) (idx pos b : nat) : fr (option (nat * 
   end.
 
 Section Fmt.
-Variable width : char -> nat.
-
-(* UnicodeWidthStr::width_cjk of a string, as the sum over its characters *)
-Definition swidth (t : list char) : nat := list_sum (map width t).
+(* UnicodeWidthStr::width_cjk of a string: an arbitrary function of the string (NOT assumed to be the sum of the widths of its
+   characters -- for emoji modifier / ZWJ / variation-selector sequences it is not) *)
+Variable swidth : list char -> nat.
 
 (* `write!(f, "{} ", spacing)?; (self.number_formatter)("|", f)?;` *)
 Definition gutter (d : nat) : list piece := raw (spaces d ++ [SP]) ++ [NumP [BAR]].
